@@ -18,7 +18,7 @@ def _ws(s):
     return s is None or s.strip() == ''
 
 
-def canon(e, _top=True):
+def canon(e, _top=True, _parent_mixed=False):
     """Canonical, hashable form of an element.
 
     Whitespace-only tails are dropped (moving or inserting a node in
@@ -28,16 +28,21 @@ def canon(e, _top=True):
     an element that has children is dropped when it is whitespace-only
     (indentation); text of leaf elements is always kept verbatim.
     """
-    kids = tuple(canon(c, False) for c in e)
     text = e.text
     if text is None:
         text = ''
-    if kids and text.strip() == '':
+    # element-only content: no character data of its own and none between its
+    # children -> the white space in there is indentation.  In MIXED content
+    # (some non-blank text or tail among the children) white space is content
+    # ("evening</b><i>and" is not "evening</b>\n  <i>and") and is kept verbatim.
+    mixed = bool(text.strip()) or any((c.tail or '').strip() for c in e)
+    kids = tuple(canon(c, False, mixed) for c in e)
+    if kids and not mixed:
         text = ''
     tail = ''
     if not _top:
         tail = e.tail or ''
-        if tail.strip() == '':
+        if tail.strip() == '' and not _parent_mixed:
             tail = ''
     return (e.tag, tuple(sorted(e.attrib.items())), text, kids, tail)
 
